@@ -16,7 +16,10 @@
 //!            acknowledge ANOTHER keyspace / answer Void / answer with the name upper-cased / close the connection (once)
 //!     `X`    drop all rules      `D` hold the `USE` answers on connections accepted from now on
 //!     `H`    wait until a held `USE` is pending at the node      `G` release the held answers
+//!     `Y<i>,<s>` a user statement `USE names[i]` on the connection of shard s (S mode) → `y` | `y!`
 //!     `L`    list the live connections at the node with the `USE` statements each acknowledged: `l[i>j,...]` (sorted)
+//!   `S<n>@e.e.e`: what the node does with the first accepted connections: `x` = refuse (accept and close),
+//!   `<shard>/<nr>` = report this shard of nr shards whatever the source port (afterwards: shard = source port % nr).
 //! * `race <H|S><n> <init|-> <names> <step;...>`   the same on a multi-thread runtime without waiting:
 //!     `U<i>`, `Q<s>`, `K<s>`, `Z<ms>` sleep, `B<i>` = use_keyspace(names[i]) concurrently with a burst of
 //!     queries on every shard. Output `race`; only the oracle judges. The scripted node runs on its own OS thread
@@ -507,7 +510,7 @@ fn pool_script(rng: &mut Rng, sharded: bool, n: u64, nvalid: usize, has_bad: boo
     let mut ks_set = has_init;
     let rounds = rng.range(2, 5);
     for _ in 0..rounds {
-        match rng.below(12) {
+        match rng.below(13) {
             // plain switch
             0 | 1 => {
                 steps.push(format!("U{}", rng.below(nvalid as u64)));
@@ -569,6 +572,15 @@ fn pool_script(rng: &mut Rng, sharded: bool, n: u64, nvalid: usize, has_bad: boo
                 steps.push("W".into());
                 queries(rng, &mut steps);
             }
+            // a user statement `USE x` on one connection, then the session's own use_keyspace(x)
+            11 if sharded => {
+                let i = rng.below(nvalid as u64);
+                steps.push(format!("Y{},{}", i, shard(rng)));
+                queries(rng, &mut steps);
+                steps.push(format!("U{}", i));
+                ks_set = true;
+                queries(rng, &mut steps);
+            }
             // an invalid name
             _ => {
                 if has_bad {
@@ -619,7 +631,78 @@ fn race_script(rng: &mut Rng, n: u64, nvalid: usize) -> String {
     steps.join(";")
 }
 
+/// Cases with a scripted node (`S2@...`): refused connections, requested-shard misses (advanced shard awareness
+/// gets blocked, the connection is dropped and retried on the regular port), excess connections, a sharder
+/// change on refill. At most one connection is being opened at any time, so the accept order is determined.
+fn emit_scripted(rng: &mut Rng, emit: &mut dyn FnMut(String)) {
+    let sc = pick_names(rng, 2, false);
+    let has_init = rng.bool();
+    let init = if has_init { "0".to_owned() } else { "-".to_owned() };
+    let mut node: Vec<String> = Vec::new();
+    let mut steps: Vec<String> = vec!["W".into()];
+    let q2 = |steps: &mut Vec<String>| {
+        steps.push("Q0".into());
+        steps.push("Q1".into());
+    };
+    let variant = rng.below(6);
+    let mut blocked = false;
+    match variant {
+        0 => {
+            node.extend(["0/2", "0/2", "0/2", "1/2"].map(String::from));
+            blocked = true;
+        }
+        1 => node.extend(["x", "0/2", "1/2"].map(String::from)),
+        2 => node.extend(["0/2", "x", "1/2"].map(String::from)),
+        3 => node.extend(["0/2", "1/2"].map(String::from)),
+        4 => {
+            node.extend(["1/2", "1/2", "0/2"].map(String::from));
+            blocked = true;
+        }
+        _ => {
+            node.extend(["1/2", "x", "x", "0/2"].map(String::from));
+        }
+    }
+    if !has_init || rng.bool() {
+        steps.push("U0".into());
+    }
+    q2(&mut steps);
+    if variant == 3 {
+        // the node has resharded when the pool refills
+        steps.push("K1".into());
+        node.push("0/3".into());
+        steps.push("W".into());
+        steps.extend(["Q0", "Q1", "Q2"].map(String::from));
+        steps.push("U1".into());
+        steps.extend(["Q0", "Q1", "Q2"].map(String::from));
+    } else {
+        if rng.bool() {
+            let s = rng.below(2);
+            steps.push(format!("K{}", s));
+            if blocked {
+                // regular-port connections: the node puts the first on the other (full) shard, then on the right one
+                if rng.bool() {
+                    node.push(format!("{}/2", 1 - s));
+                }
+                node.push(format!("{}/2", s));
+            } else if rng.bool() {
+                // the refill is refused once
+                node.push("x".into());
+            }
+            steps.push("W".into());
+            q2(&mut steps);
+        }
+        steps.push("U1".into());
+        q2(&mut steps);
+    }
+    steps.push("W".into());
+    steps.push("L".into());
+    emit(format!("pool S2@{} {} {} {}", node.join("."), init, names_field(&sc.names), steps.join(";")));
+}
+
 fn emit_pool(rng: &mut Rng, emit: &mut dyn FnMut(String), race: bool) {
+    if !race && rng.chance(1, 6) {
+        return emit_scripted(rng, emit);
+    }
     let sharded = rng.chance(2, 3);
     let n = if sharded { rng.range(1, 3) as u64 } else { rng.range(1, 3) as u64 };
     let nvalid = rng.range(2, 4) as usize;
